@@ -1394,7 +1394,7 @@ class DiskRefsContainer(RefsContainer):
         self._remove_empty_dirs_at(filename)
         ensure_dir_exists(os.path.dirname(filename))
         with GitFile(filename, "wb") as f:
-            if os.path.exists(filename) or name in self.get_packed_refs():
+            if os.path.exists(filename) or realname in self.get_packed_refs():
                 f.abort()
                 return False
             try:
